@@ -65,6 +65,8 @@ struct CompTraits : TraitsBase<K_, E> {
 };
 
 // ---- BucketingPGMIndex -------------------------------------------------------------------------------------------------
+/// number of bits needed to write x (0 for 0); the harness does not use the library's internal macro of the same meaning
+constexpr unsigned bit_width_of(uint64_t x) { unsigned w = 0; while (x) { ++w; x >>= 1; } return w; }
 template<typename K, size_t E, size_t TLS, uint8_t BITS, typename F>
 struct BuckOpen : pgm::BucketingPGMIndex<K, E, TLS, BITS, F> {
     using Base = pgm::BucketingPGMIndex<K, E, TLS, BITS, F>;
@@ -75,7 +77,7 @@ struct BuckOpen : pgm::BucketingPGMIndex<K, E, TLS, BITS, F> {
     size_t chosen(K q) const { return size_t(this->segment_for_key(q) - this->segments.begin()); }
     size_t table_size() const { return this->top_level.size(); }
     size_t bucket_of(K q) const {
-        if constexpr (Base::pow_two_top_level) return (q - this->first_key) >> (sizeof(K) * CHAR_BIT - BIT_WIDTH(TLS) + 1);
+        if constexpr (Base::pow_two_top_level) return (q - this->first_key) >> (sizeof(K) * CHAR_BIT - bit_width_of(TLS) + 1);
         else return (q - this->first_key) / this->step;
     }
     K first() const { return this->first_key; }
